@@ -14,6 +14,8 @@ CHECKS = {
          "5/C04", "as C01; reverse sweeps over nested events are known finding KF-D3"),
  "C05": ("locality of the reference semantics (`clipW` composition) proved; nested-window pairs compared on the implementation by the Coq oracle.",
          "5/C05", "as C02"),
+ "C18": ("Theorems on the filter model (`feval`): a filtered timeline returns exactly the source events satisfying the predicate, in order; and/or are conjunction/disjunction; duration thresholds are exact rational comparisons (end-start vs k*scale), unbounded events infinitely long; one_of/has_any/has_all incl. empty collections. The predicate model is tied to properties.py by running filter trees over stored events on both sides; the Coq oracle compares the implementation's slice with the reference evaluation.",
+         "5/C18", "Coq kernel + model + correspondence; Duration.apply divides in floating point: the model compares exact rationals (equivalent below 2^53 s); type errors of ill-typed comparisons are outside the generator"),
  "C06": ("`csweep_spec`: the complement sweep returns plain, window-confined, sentinel-free, strictly separated gaps whose coverage is the negation of the source's, for every sorted positive-length input; canonical lists with equal coverage are equal; correspondence + Coq oracle `canonical`.",
          "5/C06", "Coq kernel + model + correspondence; no known finding"),
 }
